@@ -30,13 +30,14 @@ def plan_shards(tier, seed, jobs, both_modes=False, recursionlimit=130):
 
 
 class Engine:
-    def __init__(self, ctx, monitors, faults=True, lockstep=False):
+    def __init__(self, ctx, monitors, faults=True, lockstep=False, hist_faults=False):
         from .. import forest as F
 
         self.F = F
         self.ctx = ctx
         self.monitors = monitors
         self.faults = faults
+        self.hist_faults = hist_faults or faults  # hook faults as a stimulus inside histories (judged or not)
         self.lockstep = lockstep
         self.known = set(ctx.spec.get("known") or [])
         self.idx = 0
@@ -343,7 +344,7 @@ class Engine:
             else:
                 recs = [F.Rec(F.materialise(fam, ch0))]
             hist = []
-            frate = rng.choice([0.0, 0.2, 0.4]) if self.faults else 0.0
+            frate = rng.choice([0.0, 0.2, 0.4]) if self.hist_faults else 0.0
             ctx.count("histories")
             for s in range(steps):
                 snap = recs[0].snapshot()
@@ -376,8 +377,10 @@ class Engine:
                             self.apply(ex)
                     finally:
                         ctx.case_extra = None
-                    if M.invariant(ex.post) or ctx.counters["violations"] != nv:
+                    if ctx.counters["violations"] != nv:
                         break
+                    if M.invariant(ex.post) and not (self.hist_faults and not self.faults):
+                        break  # (C02 goes on: its next fault-free call is judged on what was left behind)
                     continue
                 break  # watchdog fired
 
